@@ -22,7 +22,7 @@ MAXN = P.get("maxn", 2)
 _LT = {"leaf": Leaf, "int": int, "intstr": Union[int, str], "nbi": Union[None, bool, int], "boolint": Union[bool, int]}
 LT = _LT[P.get("leaf", "boolint")]
 LT2 = _LT[P.get("leaf2", "int")]
-POOL = [None, True, 0, 1, "a", "é", False, -1, "", "1", 1.5, " ", '"', "\\"][: P.get("pooln", 6)]
+POOL = [None, True, 0, "a", 1, "é", False, -1, "", "1", 1.5, " ", '"', "\\"][: P.get("pooln", 6)]
 
 
 def _is(a: Any, b: Any) -> bool:
@@ -112,7 +112,22 @@ def forms(i0: int, i1: int, n: int, b0: bool) -> bool:
         and it_text == base and it_file == base and q_file == base
         and ([m_text.obj] if m_text is not None else []) == first
     )
-    if not agree:
+    return ok(agree)
+
+
+def forms_history(i0: int, i1: int, n: int, b0: bool) -> bool:
+    """Blank-space-led text, the async entry points on text / file / bytes, and call history on one text.
+
+    pre: 0 <= i0 < len(POOL) and 0 <= i1 < len(POOL)
+    pre: 0 <= n <= MAXN
+    post: _
+    """
+    L = [pick(POOL, i0), pick(POOL, i1), 1]
+    doc = spines.build(SPINE, L + L, n, [b0, True, True])
+    text = json.dumps(doc)
+    base = COMPILED.findall(doc)
+    from_text = COMPILED.findall(text)
+    if not why(from_text == base, "text", from_text, base):
         return ok(False)
     # JSON text may start with blank space; the async entry points read text and files the same way
     padded = pick(["\n ", " ", "\t\r\n"], i0 % 3) + json.dumps(doc, indent=1 if b0 else None) + "\n"
